@@ -99,8 +99,11 @@ def fill_scales_for_dyadic_pyramid(info, target_chunk_size=64,
             ceil_div(sz, axis_factor) for sz, axis_factor in
             zip(full_scale_info["size"], factors)]
         # Key is the resolution in micrometres
-        scale_info["key"] = format_length(min(scale_info["resolution"]),
-                                          key_unit)
+        # The key is derived from the finest full-resolution voxel size, which
+        # is doubled at every level: this keeps the keys pairwise distinct
+        # (the minimum over the axes is not always doubled between levels)
+        scale_info["key"] = format_length(
+            best_axis_resolution * 2 ** scale_level, key_unit)
 
         max_delay = max(axis_level_delays)
         anisotropy_factors = [max(0, max_delay - delay - scale_level)
